@@ -2829,13 +2829,16 @@ class WorkflowGraph(object):
         ref_condition = document['condition']
         import_in_stage = document['stage']
 
-        cond_stage, cond_name, c_file, c_method = FlowIR.ParseDataReferenceFull(ref_condition, import_in_stage)
+        # VV: The stage indices inside a DoWhile document are relative to the stage that the document is imported in
+        doc_stage, cond_name, c_file, c_method = FlowIR.ParseDataReferenceFull(ref_condition, 0)
+        cond_stage = import_in_stage + doc_stage
         self.log.info("Condition \"reference\" %s is produced by %s" % (
             ref_condition, (cond_stage, cond_name)
         ))
 
         condition_instances = sorted(
-            [c for c in all_looped_ids if c[1].split('#', 1)[1] == cond_name],
+            # VV: other DoWhile documents (e.g. in other stages) may contain a component with the same name
+            [c for c in all_looped_ids if int(c[0]) == cond_stage and c[1].split('#', 1)[1] == cond_name],
             # VV: Sort on iteration number from stage<idx:%d>.<iteration-no:%d>#<name:str>
             key=lambda c: int(c[1].split('#', 1)[0]),
             reverse=True
